@@ -2,6 +2,7 @@ package main
 
 import (
 	"bytes"
+	"compress/flate"
 	"encoding/binary"
 	"fmt"
 )
@@ -10,7 +11,7 @@ func init() { runners["C13"] = runC13 }
 
 // C13: limits x sizes around them x shapes (single, fragmented, compressed, compressed+fragmented, bombs, declared-only).
 func runC13(c *Ctx) error {
-	c.Sum.Rule = "limits {1,16,125,126,1000,65536(,2^20)} x sizes {limit-1, limit, limit+1, 2*limit, declared 2^31 / 2^63-1 / 2^63 / 2^64-1} x shapes {one frame, 2-4 fragments, compressed (compressible and incompressible), compressed+fragmented, 1000:1 bomb} x both roles; oracle: delivered iff wire and inflated size within the limit, 1009 when the wire sizes reveal it, allocation during the read loop bounded by 4*limit+2MiB; non-trivial = all; distinct by (role, limit, shape, size)"
+	c.Sum.Rule = "limits {1,16,125,126,1000,65536(,2^20)} x sizes {limit-1, limit, limit+1, 2*limit, declared 2^31 / 2^63-1 / 2^63 / 2^64-1} x shapes {one frame, 2-4 fragments, compressed (compressible and incompressible), compressed+fragmented, 1000:1 bomb, compressed with a final DEFLATE block} x both roles; oracle: delivered iff wire and inflated size within the limit, 1009 when the wire sizes reveal it, allocation during the read loop bounded by 4*limit+2MiB; non-trivial = all; distinct by (role, limit, shape, size)"
 	limits := []int{1, 16, 125, 126, 1000, 65536}
 	if !c.quick() {
 		limits = append(limits, 1<<20)
@@ -19,12 +20,12 @@ func runC13(c *Ctx) error {
 		for _, limit := range limits {
 			sizes := []int{limit - 1, limit, limit + 1, 2 * limit}
 			for _, size := range sizes {
-				for shape := 0; shape < 7; shape++ {
+				for shape := 0; shape < 9; shape++ {
 					pmd := shape >= 2
 					spec := connSpec{Server: server, PMD: pmd, RLimit: limit, Utf8: false}
 					var payload []byte
 					switch shape {
-					case 3, 5: // incompressible
+					case 3, 5, 8: // incompressible
 						payload = randBytes(c.Rng, size)
 					default:
 						payload = bytes.Repeat([]byte("abcdefgh"), size/8+1)[:size]
@@ -39,6 +40,15 @@ func runC13(c *Ctx) error {
 					wire := payload
 					if pmd {
 						wire = rfc7692Deflate(payload, nil, 6)
+					}
+					if shape >= 7 {
+						// a sender that ends every message's DEFLATE stream with a final block (BFINAL = 1, RFC 7692 7.2.3.4): the
+						// inflater then reports the end of the stream together with the last bytes
+						var zb bytes.Buffer
+						zw, _ := flate.NewWriter(&zb, 6)
+						_, _ = zw.Write(payload)
+						_ = zw.Close()
+						wire = zb.Bytes()
 					}
 					nfr := 1
 					if shape == 1 || shape == 4 || shape == 5 {
